@@ -125,6 +125,7 @@ Proof.
           match w_s W n with
           | BRetry => DRet (set_init s1 false) IReturn
           | BFinish => DRet (set_init s1 false) IBreak
+          | BFinal c => DRet (set_init (emit s1 (EvFinal c)) false) IBreak
           | BNext g => DGo (new_state W (set_init s1 false) (Some g))
           | BNonCallable => after_cleanup W (do_cleanup W (set_init s1 false) RExc)
           | BRaise => after_cleanup W (do_cleanup W s1 RExc)
@@ -142,7 +143,8 @@ Proof.
     - lia.
     - lia.
     - pose proof (after_cleanup_counts W (set_init s1 false) RExc). lia.
-    - pose proof (after_cleanup_counts W s1 RExc). lia. }
+    - pose proof (after_cleanup_counts W s1 RExc). lia.
+    - unfold ncalls, ncleanups, has_cleanup in *; cbn in *. lia. }
   destruct (next_task s0) as [t|]; [destruct (cleanup_reason s0)|]; try exact Hcall.
   pose proof (after_cleanup_counts W s0 (RTask t)). lia.
 Qed.
@@ -263,6 +265,7 @@ Proof.
           match w_s W n with
           | BRetry => DRet (set_init s1 false) IReturn
           | BFinish => DRet (set_init s1 false) IBreak
+          | BFinal c => DRet (set_init (emit s1 (EvFinal c)) false) IBreak
           | BNext g => DGo (new_state W (set_init s1 false) (Some g))
           | BNonCallable => after_cleanup W (do_cleanup W (set_init s1 false) RExc)
           | BRaise => after_cleanup W (do_cleanup W s1 RExc)
@@ -283,7 +286,8 @@ Proof.
     - exact HF0.
     - apply HF0.
     - apply after_cleanup_post. apply HF0.
-    - apply after_cleanup_post. exact HW1. }
+    - apply after_cleanup_post. exact HW1.
+    - destruct HF0 as [[A B] C]. unfold WInv. cbn in *. auto. }
   destruct (next_task s0) as [t|]; [destruct (cleanup_reason s0)|]; try exact Hcall.
   apply after_cleanup_post. apply HF.
 Qed.
@@ -463,6 +467,7 @@ Proof.
           match w_s W n with
           | BRetry => DRet (set_init s1 false) IReturn
           | BFinish => DRet (set_init s1 false) IBreak
+          | BFinal c => DRet (set_init (emit s1 (EvFinal c)) false) IBreak
           | BNext g => DGo (new_state W (set_init s1 false) (Some g))
           | BNonCallable => after_cleanup W (do_cleanup W (set_init s1 false) RExc)
           | BRaise => after_cleanup W (do_cleanup W s1 RExc)
@@ -478,7 +483,10 @@ Proof.
     - split; cbn [dstate]; [exact HC1|exact Hne1].
     - split; cbn [dstate]; [exact HC1|exact Hne1].
     - apply after_cleanup_CPost; [exact HC1|exact Hne1|cbn; discriminate].
-    - apply after_cleanup_CPost; [exact HC1|congruence|cbn; discriminate]. }
+    - apply after_cleanup_CPost; [exact HC1|congruence|cbn; discriminate].
+    - split; cbn [dstate]; [|exact Hne1].
+      destruct HC1 as (Hok & Hneed & H3 & H4 & H5). unfold CInv. cbn. rewrite Hok, Hneed. cbn.
+      repeat split; intros; auto; try (apply H3; assumption). }
   destruct (next_task s0) as [t|]; [destruct (cleanup_reason s0) eqn:Hr|]; try exact Hcall.
   apply after_cleanup_CPost; [exact HC|exact Hs0|].
   intros _. destruct HC as (_ & _ & _ & H4 & _). apply H4; assumption.
@@ -597,6 +605,7 @@ Proof.
     + unfold PPost. cbn. repeat split; try congruence.
     + rewrite <- E2. apply (after_cleanup_PPost W (set_init s1 false) RExc t Q); cbn; congruence.
     + rewrite <- E2. apply (after_cleanup_PPost W s1 RExc t Q); congruence.
+    + unfold PPost. cbn. repeat split; try congruence.
   - apply after_cleanup_PPost; assumption.
 Qed.
 
@@ -713,6 +722,7 @@ Proof.
           match w_s W n with
           | BRetry => DRet (set_init s1 false) IReturn
           | BFinish => DRet (set_init s1 false) IBreak
+          | BFinal c => DRet (set_init (emit s1 (EvFinal c)) false) IBreak
           | BNext g => DGo (new_state W (set_init s1 false) (Some g))
           | BNonCallable => after_cleanup W (do_cleanup W (set_init s1 false) RExc)
           | BRaise => after_cleanup W (do_cleanup W s1 RExc)
